@@ -100,9 +100,9 @@ ListJson(l) == [form |-> l.form, pats |-> [i \in DOMAIN l.pats |-> PatJson(l.pat
 FPJson(x) == [apply |-> ListJson(x.apply), skip |-> ListJson(x.skip)]
 \* how the INPUT location is spelled on the command line: the patterns are matched against the normalized path of the file
 \* (`src/sub/a.lua`) whichever spelling is used -- the directory (`src`, `./src`), or one file of the tree given alone
-\* (`src/sub/a.lua`, `./src/sub/a.lua`, `src/x/../sub/a.lua`).  The form (and, for the single-file forms, the file) is a
+\* (`src/sub/a.lua`, `./src/sub/a.lua`, `src/x/../sub/a.lua`, `src//sub/a.lua`).  The form (and, for the single-file forms, the file) is a
 \* function of the case: each case is replayed under one spelling.
-InputForms == <<"dir", "dotdir", "dir", "file", "dotfile", "updownfile">>
+InputForms == <<"dir", "dotdir", "dir", "file", "dotfile", "updownfile", "dslashfile">>      \* dslashfile: `src//sub/a.lua`
 SlotsUsed == Cardinality({k \in 1..3 : c.rules[k].apply.form # "none"}) + Cardinality({k \in 1..3 : c.rules[k].skip.form # "none"})
              + (IF c.top.apply.form # "none" THEN 3 ELSE 0) + (IF c.top.skip.form # "none" THEN 1 ELSE 0)
 CaseMix == Len(c.tree) + 2 * SlotsUsed + Len(PathStr(c.tree[1]))
